@@ -14,7 +14,11 @@ Template directives (each on its own line, starting with //@):
     //@header TEXT                  signature for loopbody/closure (everything before the `{`)
     //@ret NAME                     `-> T` becomes `-> (NAME: T)`
     //@sig                          following lines go between signature and body
-    //@loop K                       following lines go between the K-th loop header and its `{`
+    //@loop K [optional]            following lines go between the K-th loop header and its `{`; `optional` (also on
+                                    //@loopend and //@at .. before|after optional): when the loop/anchor is gone the
+                                    splice is skipped instead of raising anchor-lost, so that the edit is judged by
+                                    the remaining obligations (its labels then miss from the baseline: a run that
+                                    has no failing obligation is still reported as undecided)
     //@loopend K                    following lines go right before the closing brace of the K-th loop's body
     //@open                         following lines go right after the body's opening brace
     //@close                        following lines go right before the body's closing brace
@@ -178,16 +182,16 @@ class Unit:
                 cur = {'kind': 'close', 'lines': []}
                 splices.append(cur)
             elif bs.startswith('//@loopend'):
-                cur = {'kind': 'loopend', 'k': int(bs.split()[1]), 'lines': []}
+                cur = {'kind': 'loopend', 'k': int(bs.split()[1]), 'lines': [], 'optional': 'optional' in bs.split()[2:]}
                 splices.append(cur)
             elif bs.startswith('//@loop'):
-                cur = {'kind': 'loop', 'k': int(bs.split()[1]), 'lines': []}
+                cur = {'kind': 'loop', 'k': int(bs.split()[1]), 'lines': [], 'optional': 'optional' in bs.split()[2:]}
                 splices.append(cur)
             elif bs.startswith('//@at'):
-                m = re.match(r'//@at\s+/(.*)/\s*(?:nth=(\d+)\s+)?(before|after|replace)\s*$', bs)
+                m = re.match(r'//@at\s+/(.*)/\s*(?:nth=(\d+)\s+)?(before|after|replace)(\s+optional)?\s*$', bs)
                 if not m:
                     raise TemplateError('bad //@at: ' + bs)
-                cur = {'kind': 'at', 'pat': m.group(1), 'nth': int(m.group(2) or 1), 'where': m.group(3), 'lines': []}
+                cur = {'kind': 'at', 'pat': m.group(1), 'nth': int(m.group(2) or 1), 'where': m.group(3), 'lines': [], 'optional': bool(m.group(4))}
                 splices.append(cur)
             elif bs.startswith('//@'):
                 raise TemplateError('unknown directive in extract block: ' + bs)
@@ -317,10 +321,14 @@ class Unit:
             elif sp['kind'] == 'close':
                 inserts.append((len(body) - 1, sp))
             elif sp['kind'] == 'loopend':
+                if len(loops) < sp['k'] and sp.get('optional'):
+                    continue
                 if len(loops) < sp['k']:
                     raise AnchorLost('fn %s: loop %d not found (have %d)' % (name, sp['k'], len(loops)))
                 inserts.append((loops[sp['k'] - 1]['close'], sp))
             elif sp['kind'] == 'loop':
+                if len(loops) < sp['k'] and sp.get('optional'):
+                    continue
                 if len(loops) < sp['k']:
                     raise AnchorLost('fn %s: loop %d not found (have %d)' % (name, sp['k'], len(loops)))
                 inserts.append((loops[sp['k'] - 1]['open'], sp))
@@ -332,6 +340,8 @@ class Unit:
                     if re.search(sp['pat'], ln):
                         hits.append((offs, offs + len(ln)))
                     offs += len(ln) + 1
+                if len(hits) < sp['nth'] and sp.get('optional'):
+                    continue
                 if len(hits) < sp['nth']:
                     raise AnchorLost('fn %s: anchor /%s/ nth=%d not found' % (name, sp['pat'], sp['nth']))
                 a0, a1 = hits[sp['nth'] - 1]
